@@ -260,10 +260,12 @@ func (x *Inst) Apply(e Ev) {
 		x.In.Quiesce()
 		// a freshly started wallet walks to the chain's best block without waiting for growth
 		x.WaitSync(30 * time.Second)
+		x.Touch()
 		return
 	}
 	x.In.Quiesce()
 	x.Settle()
+	x.Touch()
 }
 
 // Settle waits until the walletUpdater goroutine has nothing left to do: it has caught up, or it sleeps
@@ -350,13 +352,29 @@ func (x *Inst) CheckC24() ([]Finding, string) {
 	return out, fmt.Sprintf("utxos=%d", len(got))
 }
 
-// CheckC25: every wallet UTXO with ValidHeight <= chain height must pass the consensus spend check at height+1.
+// Touch lets the wallet's utxo keeper look at every wallet output at the current height, as a wallet in use does
+// (a keeper that remembers what it saw at an earlier, higher best block must not judge maturity by that).
+func (x *Inst) Touch() {
+	if !x.Synced() {
+		return
+	}
+	for _, u := range x.WalletUtxos() {
+		x.Wallet.AccountMgr.VerifOffers(u.OutputID)
+	}
+}
+
+// CheckC25: every wallet UTXO with ValidHeight <= chain height, and every output the wallet's utxo keeper hands
+// out for spending, must pass the consensus spend check at height+1.
 func (x *Inst) CheckC25() []Finding {
 	nd := x.In.Node
 	height := nd.Chain.BestBlockHeight()
 	var out []Finding
 	for _, u := range x.WalletUtxos() {
-		if u.ValidHeight > height {
+		offered, _ := x.Wallet.AccountMgr.VerifOffers(u.OutputID)
+		if offered && u.ValidHeight > height {
+			out = append(out, Finding{"keeper-offers-output-before-its-valid-height", fmt.Sprintf("%s: wallet valid height %d, chain height %d, ReserveParticular grants it", utxoLine(u), u.ValidHeight, height)})
+		}
+		if u.ValidHeight > height && !offered {
 			continue
 		}
 		id := u.OutputID
